@@ -1040,6 +1040,11 @@ func (s *Session) CrashTrace() string {
 	}
 	created := false
 	cur := 0
+	// a header written with a transaction id seen before is a restored header (restoreMeta after a
+	// failed final sync): it names the state that id was first written with. The fresh file holds
+	// txid 1 (active) and txid 0, both naming state 0.
+	stateOfTxid := map[uint64]int{0: 0, 1: 0}
+	lastHdrTxid := uint64(1)
 	for _, op := range log {
 		switch op.Kind {
 		case simdisk.OpMark:
@@ -1053,6 +1058,10 @@ func (s *Session) CrashTrace() string {
 			if created {
 				sb.WriteString("s\n")
 			}
+		case simdisk.OpSyncFail:
+			if created {
+				sb.WriteString("sf\n")
+			}
 		case simdisk.OpTruncate:
 			if created {
 				fmt.Fprintf(&sb, "t %d\n", (op.Off+ps-1)/ps)
@@ -1063,7 +1072,14 @@ func (s *Session) CrashTrace() string {
 			}
 			if len(op.Data) == 84 && (op.Off == 0 || op.Off == ps) {
 				m := txfile.VerifDecodeMeta(op.Data)
-				fmt.Fprintf(&sb, "h %d %d %d\n", op.Off/ps, m.Txid, cur)
+				st := cur
+				if m.Txid < lastHdrTxid {
+					st = stateOfTxid[m.Txid] // restored older header
+				} else {
+					stateOfTxid[m.Txid] = cur // a commit (a failed attempt's txid is used again by the next one)
+				}
+				lastHdrTxid = m.Txid
+				fmt.Fprintf(&sb, "h %d %d %d\n", op.Off/ps, m.Txid, st)
 				continue
 			}
 			for o := int64(0); o < int64(len(op.Data)); o += ps {
